@@ -89,8 +89,14 @@ def finish(rep, level, explanation, trusted_base, assumptions, checker_cmd=None,
     out_lines = []
     unlisted = []
     listed = []
+    import re as _re
+
+    def norm(k):
+        # a listed finding stays the same finding when its site moves between a function and its own closures
+        return _re.sub(r'::\{closure#\d+\}', '', k)
+    known_norm = {(p, norm(k)) for (p, k) in known}
     for v in rep.violations:
-        if (rep.pid, v['key']) in known:
+        if (rep.pid, v['key']) in known or (rep.pid, norm(v['key'])) in known_norm:
             listed.append(v)
         else:
             unlisted.append(v)
